@@ -71,6 +71,28 @@ def run(sc):
     out['spec_failures'] = fails; out['reproduced'] = bool(fails)
     return out
 
+def sweep(sc):
+    """bounded supplement: the REAL get_task_delay against the statement over a grid of instants and schedule times (incl. the boundaries +-1 us)"""
+    import random
+    rnd = random.Random(sc.get('seed', 0)); fails = []; n = 0
+    nows = [0, 1, 999999, 30 * US, 59 * US + 999999, 60 * US - 1, 45 * US + 500000, 3600 * US + 17 * US + 3] + [rnd.randrange(0, 10 ** 13) for _ in range(12)]
+    for now in nows:
+        H = (now // (60 * US)) * 60 * US + 61 * US
+        offs = [-2 * 86400 * US, -US, -1, 0, 1, 2, US - 1, US, US + 1, H - now - 1, H - now, H - now + 1, 59 * US, 60 * US, 61 * US, 2 * 86400 * US] + [rnd.randrange(-3 * 60 * US, 3 * 60 * US) for _ in range(10)]
+        for off in offs:
+            for aware, tz in ((False, 0), (True, 0), (True, 3), (True, 11)):
+                if now + off < 0: continue
+                s = {'now_us': now, 'cron': None, 'cron_offset': None, 'time': {'dt_us': now + off, 'aware': aware, 'tz': tz}, 'is_now_value': False}
+                r = run(s); n += 1
+                if r['spec_failures']: fails.append({'key': f"now={now} T-now={off}us aware={aware} tz={tz}", 'inputs': r['inputs'], 'result': r.get('result', r.get('raised')), 'failed_clauses': ['C14: ' + x for x in r['spec_failures']]})
+        for off in (None, {'td_us': 0}, {'td_us': 3600 * US}, {'td_us': -26 * 3600 * US + 1}, {'str': 'Europe/Berlin'}, {'str': 'Asia/Kathmandu'}, {'str': 'UTC'}):
+            for val in (True, False):
+                s = {'now_us': now, 'cron': {'str': '*/5 * * * *'}, 'cron_offset': off, 'time': None, 'is_now_value': val}
+                r = run(s); n += 1
+                if r['spec_failures']: fails.append({'key': f"now={now} cron offset={off} matcher={val}", 'inputs': r['inputs'], 'result': r.get('result', r.get('raised')), 'failed_clauses': ['C13: ' + x for x in r['spec_failures']]})
+    return {'reproduced': bool(fails), 'runs': n, 'n_failures': len(fails), 'failures': fails[:8]}
+
 if __name__ == '__main__':
     sc = json.load(open(sys.argv[1])) if len(sys.argv) > 1 else json.load(sys.stdin)
-    print(json.dumps(run(sc.get('scenario', sc)), default=str))
+    sc = sc.get('scenario', sc)
+    print(json.dumps(sweep(sc) if 'now_us' not in sc else run(sc), default=str))
